@@ -217,11 +217,23 @@ Section Run.
     | _ => (w, l, sym "bad-op")
     end.
 
+  Definition op_is (name : string) (op : sx) : bool :=
+    match x_list op with SS c :: _ => ustr_eqb c (u name) | _ => false end.
+  (* after a failed operation other than save, only the file listings among the remaining operations are taken *)
+  Fixpoint observe (w : world) (ops : list sx) : list sx :=
+    match ops with
+    | [] => []
+    | op :: r => (if op_is "files" op then [SL [sym "ok"; enc_world_files w]] else []) ++ observe w r
+    end.
   Fixpoint run_ops (w : world) (l : loader) (ops : list sx) : list sx :=
     match ops with
     | [] => []
     | op :: r => let '(w', l', res) := run_op w l op in
-                 res :: (match res with SL (SS k :: _) => if ustr_eqb k (u "err") then [] else run_ops w' l' r | _ => run_ops w' l' r end)
+                 res :: (match res with
+                         | SL (SS k :: _) => if ustr_eqb k (u "err") then (if op_is "save" op then [] else observe w' r)
+                                             else run_ops w' l' r
+                         | _ => run_ops w' l' r
+                         end)
     end.
 End Run.
 
